@@ -324,6 +324,7 @@ let step_preds : (string * (vconfig -> fstep -> bool)) list = [
   ("c02_zero_window_waker", c02_zero_window_waker);
   ("c02_timer_ok", c02_timer_ok);
   ("c02_rto_armed", c02_rto_armed);
+  ("c02_no_silent_stall", c02_no_silent_stall);
   ("c05_window_ok", c05_window_ok);
   ("c05_zero_window_ok", c05_zero_window_ok);
   ("c05_rto_single_ok", c05_rto_single_ok);
@@ -349,6 +350,7 @@ let step_preds : (string * (vconfig -> fstep -> bool)) list = [
   ("c18_pre_monitor", c18_pre_monitor);
   ("c17_synack_ok", c17_synack_ok);
   ("c17_fin_after_data_ok", c17_fin_after_data_ok);
+  ("c17_fin_after_data_noerr", c17_fin_after_data_noerr);
   ("c17_fin_number_step_ok", c17_fin_number_step_ok);
   ("c17_reset_ok", c17_reset_ok);
   ("c03_ready_closed_ok", c03_ready_closed_ok);
@@ -429,7 +431,100 @@ let run_vsock_shift toks =
         | None -> "FAIL c09_shift_ok")
   | _ -> failwith "vsock_shift: bad case"
 
+(* vdrop <case as vsock> : the ops may contain one `X` = the connection future is dropped without having
+   returned (cancellation; model: drop_vsock = Drop for VirtualSocket); after it only application ops follow
+   and each observation is `result/wakes` (the connection object and with it the fingerprint are gone) *)
+let app_res_str (out : vout) =
+  match out with
+  | VrNone -> "-"
+  | VrWrite (WrOk n) -> "W" ^ string_of_z n
+  | VrWrite WrPending -> "WP"
+  | VrWrite WrErrClosed -> "WEC"
+  | VrWrite WrErrShutdown -> "WES"
+  | VrWrite WrErrDropped -> "WED"
+  | VrUnit UrOk -> "UOK" | VrUnit UrPending -> "UPEND" | VrUnit UrErr -> "UERR"
+  | VrRead (RdOk bs) -> Printf.sprintf "R%d:%s" (List.length bs) (C_rx.bytes_dot bs)
+  | VrRead RdEof -> "REOF" | VrRead RdErrMsg -> "RERRMSG" | VrRead RdErrDead -> "RERRDEAD"
+  | VrRead RdPending -> "RPEND"
+  | VrPoll _ -> "?"
+
+let run_vdrop toks =
+  let a = Array.of_list toks in
+  if Array.length a < 17 then "BADCASE" else
+  let cfg = config_of a in
+  match vsock_new_cubic C_cubic.cbrt_oracle C_cubic.powf3_oracle cfg with
+  | None -> "BADCONFIG"
+  | Some s0 ->
+    let toks = Array.to_list (Array.sub a 17 (Array.length a - 17)) in
+    let rec split acc = function
+      | [] -> (List.rev acc, None)
+      | "X" :: r -> (List.rev acc, Some r)
+      | x :: r -> split (x :: acc) r in
+    let (pre, post) = split [] toks in
+    let tr = vtrace_cubic C_cubic.cbrt_oracle C_cubic.powf3_oracle s0 (List.map parse_op pre) in
+    let head = ("I:-/-/" ^ fingerprint s0) :: List.map obs_str tr in
+    let finished = List.exists (fun o -> poll_finished o.vo_out) tr in
+    (match post with
+     | None -> String.concat " " head
+     | Some _ when finished || List.length tr < List.length pre -> String.concat " " head
+     | Some post ->
+       let s = (match List.rev tr with o :: _ -> o.vo_state | [] -> s0) in
+       let s1 = drop_vsock { s with v_wakes = [] } in
+       let has x = List.mem x s1.v_wakes in
+       let xobs = "X/" ^ wakes_str (has VwReader) (has VwWriter) false in
+       let rec go s acc = function
+         | [] -> List.rev acc
+         | t :: r ->
+           (match t.[0] with
+            | 'T' | 'L' | 'P' | 'M' | 'Z' | 'X' -> go s (("BADOP/-") :: acc) r
+            | _ ->
+              (match vtrace_cubic C_cubic.cbrt_oracle C_cubic.powf3_oracle s [parse_op t] with
+               | [o] -> go o.vo_state ((app_res_str o.vo_out ^ "/" ^
+                                       wakes_str false o.vo_self_woken false) :: acc) r
+               | _ -> go s ("?" :: acc) r)) in
+       String.concat " " (head @ (xobs :: go s1 [] post)))
+
+(* vdrop_pred <case> | <observations> : the extracted c03_drop_wakes_ok / c03_post_drop_ok on the
+   implementation's observations of a `vdrop` case; the part before X is judged by the vsock predicates *)
+let run_vdrop_pred toks =
+  let (case, obs) = split_bar [] toks in
+  let ops = (match case with _ when List.length case > 17 ->
+      List.filteri (fun i _ -> i >= 17) case | _ -> []) in
+  let rec idx i = function [] -> None | "X" :: _ -> Some i | _ :: r -> idx (i + 1) r in
+  match idx 0 ops with
+  | None -> "OK"
+  | Some k ->
+    (* obs.(0) is the initial one; op j has observation j+1 *)
+    let oa = Array.of_list obs in
+    if Array.length oa <= k + 1 then "OK"        (* the connection ended before the drop *)
+    else if oa.(k + 1) = "PANIC" then "FAIL c03_drop_panic"
+    else begin
+      let (_, _, _, pre) = parse_obs oa.(k) in
+      let xw = (match String.split_on_char '/' oa.(k + 1) with [_; w] -> w | _ -> "") in
+      if not (c03_drop_wakes_ok pre (has 'R' xw) (has 'W' xw)) then "FAIL c03_drop_wakes_ok"
+      else begin
+        let post_ops = List.filteri (fun i _ -> i > k) ops in
+        let rec pairs i = function
+          | [] -> []
+          | t :: r ->
+            if k + 2 + i >= Array.length oa then []
+            else begin
+              let o = oa.(k + 2 + i) in
+              if o = "PANIC" then [((FeFlush, FrUnit UrPending), false)]      (* a panic is never acceptable *)
+              else match String.split_on_char '/' o with
+                | [res; w] when res <> "BADOP" ->
+                  let (r0, _, _, _) = parse_obs (res ^ "/" ^ w ^ "/" ^ (match String.split_on_char '/' oa.(k) with
+                      | l -> List.nth l (List.length l - 1))) in
+                  ((fevent_of (parse_op t), r0), has 'W' w) :: pairs (i + 1) r
+                | _ -> pairs (i + 1) r
+            end in
+        if c03_post_drop_ok (pairs 0 post_ops) then "OK" else "FAIL c03_post_drop_ok"
+      end
+    end
+
 let dispatch = function
+  | "vdrop_pred" :: r -> Some (run_vdrop_pred r)
+  | "vdrop" :: r -> Some (run_vdrop r)
   | "vsock_shift" :: r -> Some (run_vsock_shift r)
   | "vsock_pred" :: r -> Some (run_vsock_pred r)
   | "vsock_pred_all" :: r -> Some (run_vsock_pred_all r)
